@@ -154,10 +154,11 @@ def d3_slot_read(facts, rep):
                    'slot T is read although tail was not moved below it first: ' + wit, ln=node['ln'])
     for fn in facts.get(R1 + 'arena_slot::steal_task'):
         n = 0
+        from engine.rules import vars_initialised_from, is_var
+        pool_vars = vars_initialised_from(fn, [c[1] for c in calls_named(fn, ('lock_task_pool',))])
         for pos, s, node in fn.stmt_elems(('rd',)):
             sub = fn.n(node['sub'])
-            if sub.get('k') == 'index' and fn.n(fn.strip(sub['base'])).get('k') == 'var' and \
-                    fn.n(fn.strip(sub['base']))['n'] == 'victim_pool':
+            if sub.get('k') == 'index' and is_var(fn, sub['base'], pool_vars):
                 n += 1
                 ok, wit = every_path_passes(
                     fn, 'entry', lambda p, e: isinstance(e, int) and (atomic_op(fn, e) or {}).get('kind') == 'load'
